@@ -74,7 +74,7 @@ def pendingStr (p : List Task) : String :=
 
 def cSummary (σ : CState) : String :=
   callsStr σ.tk.log ++ " n=" ++ toString σ.cache.length ++ " p=" ++ toString σ.pending.length ++
-    " k=" ++ toString σ.tk.K.length ++ " m=" ++ boolStr (mirrorOk σ.cache σ.tk.K) ++ " s=" ++ boolStr σ.staleApplied
+    " k=" ++ toString σ.tk.K.length ++ " m=" ++ boolStr (mirrorOk σ.cache σ.tk.K)
 
 def clearLogT (s : TK) : TK := { s with log := [] }
 def clearLogC (σ : CState) : CState := { σ with tk := clearLogT σ.tk }
